@@ -224,6 +224,29 @@ def fixed_forms(S):
     for t in lt[1:]:
         form = form + t
     out.append((1, form, ["each"]))
+    # sparsity patterns: forms in which some sub-space occurs ONLY as a test or ONLY as a trial function, or
+    # not at all (one-way couplings, single blocks, a single row/column) -- the block grid must still be
+    # indexed by all sub-spaces and no block may be dropped or mis-filed
+    def sum_terms(pairs, tag):
+        ts = []
+        for (i, j) in pairs:
+            try:
+                ts.append(bilinear_term(S, rng, i, j)[0])
+            except IndexError:
+                pass
+        if ts:
+            f_ = ts[0]
+            for t in ts[1:]:
+                f_ = f_ + t
+            out.append((2, f_, [tag]))
+    if n >= 2 and S.nu >= 2:
+        sum_terms([(i, j) for i in range(n) for j in range(S.nu) if i < j], "upper")
+        sum_terms([(i, j) for i in range(n) for j in range(S.nu) if i > j], "lower")
+        sum_terms([(0, S.nu - 1)], "corner_upper")
+        sum_terms([(n - 1, 0)], "corner_lower")
+    if n >= 2:
+        out.append((1, linear_term(S, rng, 0)[0], ["first_only"]))
+        out.append((1, linear_term(S, rng, n - 1)[0], ["last_only"]))
     return out
 
 
